@@ -43,6 +43,10 @@ enum Mutation {
     /// bytes of his own - a "chunk" a lazy decoder might pass over without opening it. (frame index, plaintext length of
     /// that frame, extra)
     ForgeEmptyVmessChunk(usize, usize, usize),
+    /// splice across CONNECTIONS: after this many frames of this connection the wire goes on with the whole wire of ANOTHER
+    /// connection made under the same keys (same direction, sealed for another request / under another salt); delivered whole
+    /// and with every single cut in the 140 bytes behind the splice point. (frames kept, cut offset behind the splice or 0)
+    ForeignConnection(usize, usize),
 }
 
 impl Mutation {
@@ -59,6 +63,7 @@ impl Mutation {
             Mutation::RandomEdit(..) => "random-edit",
             Mutation::Reflect(..) => "reflect-own-request",
             Mutation::ForgeEmptyVmessChunk(..) => "forged-chunk-announcing-no-payload",
+            Mutation::ForeignConnection(..) => "spliced-from-another-connection",
         }
     }
 }
@@ -184,6 +189,7 @@ fn apply(inst: &Inst, m: &Mutation) -> Option<(Vec<u8>, usize, bool)> {
             v.extend_from_slice(&w[e..]);
             (v, s, false)
         }
+        Mutation::ForeignConnection(..) => return None, // needs a second connection: built in one_case
         Mutation::Reflect(keep) => {
             if inst.request_wire.is_empty() || *keep > nf {
                 return None;
@@ -422,17 +428,45 @@ fn one_case(seed: u64, i: u64, thorough: bool, rep: &mut Report, rt: &mut tokio:
         let n = rng.range(1, 6);
         muts.push(Mutation::RandomEdit((0..n).map(|_| (rng.range(0, len - 1), rng.next_u32() as u8)).collect()));
     }
+    // the answer (or request continuation) of ANOTHER connection under the same keys; SIP004 binds nothing to a connection
+    // (the property names Shadowsocks 2022 and VMess). A server that is handed a whole foreign REQUEST from its first byte
+    // simply sees another client (replays are C10's business): on the server side the splice starts behind the first frame.
+    if !matches!(spec.cfg.proto, Proto::Ss(m) if !m.is_2022()) && !spec.is_dgram() {
+        let first_keep = if matches!(spec.role, Role::ClientStream) { 0 } else { 1 };
+        for keep in first_keep..nf.min(first_keep + 2) {
+            muts.push(Mutation::ForeignConnection(keep, 0));
+            for cut in 1..=140usize {
+                if i % 4 == 0 || thorough || cut % 4 == (i % 4) as usize {
+                    muts.push(Mutation::ForeignConnection(keep, cut));
+                }
+            }
+        }
+    }
     for (mi, m) in muts.iter().enumerate() {
         let inst = match spec.instantiate(&mut rng) {
             Ok(p) => p,
             Err(_) => continue,
         };
-        let (wire, first_diff, eof) = match apply(&inst, m) {
-            Some(x) => x,
-            None => continue,
+        let mut forced_cuts: Option<Vec<usize>> = None;
+        let (wire, first_diff, eof) = if let Mutation::ForeignConnection(keep, cut) = m {
+            let Ok(other) = spec.instantiate(&mut rng) else { continue };
+            if *keep > inst.frame_ends.len() {
+                continue;
+            }
+            let pos = if *keep == 0 { 0 } else { inst.frame_ends[*keep - 1] };
+            let mut v = inst.wire[..pos].to_vec();
+            v.extend_from_slice(&other.wire);
+            forced_cuts = Some(if *cut == 0 || pos + cut >= v.len() { vec![] } else { vec![pos + cut] });
+            rep.mon("foreign_connection_splices_delivered", 1);
+            (v, pos, false)
+        } else {
+            match apply(&inst, m) {
+                Some(x) => x,
+                None => continue,
+            }
         };
         let ws = mi % 7 == 3;
-        let cuts = if mi % 2 == 0 { vec![] } else { gen::random_cuts(&mut rng, wire.len(), 4) };
+        let cuts = if let Some(c) = forced_cuts { c } else if mi % 2 == 0 { vec![] } else { gen::random_cuts(&mut rng, wire.len(), 4) };
         // the SIP022 first read must carry salt + fixed header: keep that prefix in one piece
         let cuts: Vec<usize> = cuts.into_iter().filter(|c| *c >= inst.exempt).collect();
         let pieces: Vec<Vec<u8>> = gen::pieces(wire.len(), &cuts).into_iter().map(|(s, e)| wire[s..e].to_vec()).collect();
